@@ -64,9 +64,9 @@ func (l *Loc) withField(i int) *Loc {
 	return &n
 }
 
-func intSV(t *Term, ty types.Type) SV  { return SV{K: KInt, T: t, Ty: ty} }
-func boolSV(t *Term) SV                { return SV{K: KBool, T: t, Ty: types.Typ[types.Bool]} }
-func refSV(t *Term, ty types.Type) SV  { return SV{K: KRef, T: t, Ty: ty} }
+func intSV(t *Term, ty types.Type) SV { return SV{K: KInt, T: t, Ty: ty} }
+func boolSV(t *Term) SV               { return SV{K: KBool, T: t, Ty: types.Typ[types.Bool]} }
+func refSV(t *Term, ty types.Type) SV { return SV{K: KRef, T: t, Ty: ty} }
 
 // MaxLen is the bound assumed on every slice/string length and capacity:
 // 2^48, the runtime's maxAlloc on 64-bit platforms.
